@@ -1,6 +1,8 @@
 //! `mc`: coordinator / worker binary of the salsa model-checking harness (DESIGN.md).
 
 mod e1;
+#[cfg(feature = "conc")]
+mod e2;
 mod evid;
 mod mon;
 mod mon2;
@@ -96,7 +98,17 @@ fn coordinator(id: &str, tier: &str) -> i32 {
     let exe = std::env::current_exe().expect("current exe");
     let mut children = Vec::new();
     for w in 0..n {
-        let child = Command::new(&exe)
+        // pin each worker to one core: baton hand-offs between the OS threads of one worker are
+        // then same-core context switches (3-4x cheaper than cross-core wake-ups)
+        let ncpu = std::thread::available_parallelism().map(|n| n.get()).unwrap_or(1);
+        let mut cmd = if meta.pin_workers && std::path::Path::new("/usr/bin/taskset").exists() {
+            let mut c = Command::new("/usr/bin/taskset");
+            c.arg("-c").arg(format!("{}", w % ncpu)).arg(&exe);
+            c
+        } else {
+            Command::new(&exe)
+        };
+        let child = cmd
             .args(["worker", id, "--tier", tier, "--part", &format!("{w}/{n}")])
             .stdout(Stdio::piped())
             .stderr(Stdio::inherit())
